@@ -25,13 +25,14 @@ COMPONENTS = {"real": ["workflows.* engine incl. WorkflowHandler.cancel_run, Tic
               "stub": ["llama_index_instrumentation"], "sim": ["loop, clock"]}
 ASSUMPTIONS = ["a run that finishes at exactly the timeout instant may end either way (tie exempt)",
                "arm B programs have no failing steps, so the known C12 defects (lost delayed retry, lost in-flight attempt count) cannot interfere"]
-EXPECTED_PROBES = ["resumed-with-timeout-configured", "stop-returned-then-loop-stalled-past-deadline", "timeout-with-active-steps", "cancel-with-active-steps", "finished-before-timeout", "resumed-after-cancel"]
+EXPECTED_PROBES = ["cancel_run-wait-elapsed", "resumed-with-timeout-configured", "stop-returned-then-loop-stalled-past-deadline", "timeout-with-active-steps", "cancel-with-active-steps", "finished-before-timeout", "resumed-after-cancel"]
 LEVEL_TEXT = "Seeded exploration of timeout/cancel instants against step completions, plus a differential resume-after-cancel arm."
 LEVEL_NOTE = "Trusted: simulator loop/clock, recording adapter."
 
 CFG_A = {"driver": "result", "p_retry": 20, "p_fail": 10, "p_cancel": 35, "timeouts": [None, 1, 2, 3, 5, 8], "p_stream": 30,
-         "p_ret_none": 10, "fan_max": 3, "p_stall": 20, "stall_grid": [1, 2, 3]}
+         "p_ret_none": 10, "fan_max": 3, "p_stall": 20, "stall_grid": [1, 2, 3, 6]}
 CFG_B = {"driver": "finish", "grid": [0, 1, 1, 2, 3]}
+CANCEL_WAIT = 5.0  # WorkflowHandler.cancel_run(timeout=5.0) default
 TERMINAL = {"StopEvent", "Stop1", "WorkflowFailedEvent", "WorkflowCancelledEvent", "WorkflowTimedOutEvent"}
 
 
@@ -85,15 +86,24 @@ def check_a(world, spec, outcome) -> None:
         if ev == "WorkflowCancelledEvent" and err != "WorkflowCancelledByUser":
             world.violate("C31.cancel-outcome", f"WorkflowCancelledEvent published but outcome is {err or 'result'}", seq, how="event-without-error")
     if err == "WorkflowTimeoutError" and T is not None:
-        # the step that ends the run had already returned its StopEvent (strictly) before the deadline: the run finished first,
-        # however long the loop was blocked afterwards
+        # the step that ends the run had returned its StopEvent and the loop then drained (a stable instant: nothing left
+        # ready) strictly before the deadline: the control loop had every opportunity to finish the run first.  A return that
+        # is followed by a blocked loop up to the deadline does NOT count: at the deadline that run is unfinished and the
+        # property's first sentence prescribes the timeout (the earlier form of this rule flagged it: false alarm, DESIGN 9.3)
         early = [(seq, t) for seq, t, kind, f in recs if kind == "exit" and f.get("exit") == "returned-stop" and t < T - 1e-9]
-        if early:
-            stalled = any(k == "stall" for _, _, k, _ in recs)
-            world.violate("C31.false-timeout", f"a step returned the StopEvent at t={early[0][1]} < timeout {T}, yet the run failed with WorkflowTimeoutError",
-                          early[0][0], how="stop-returned-before-deadline", loop_stalled=stalled)
+        drained = [seq for seq, t, kind, f in recs if kind == "stable" and early and seq > early[0][0] and t < T - 1e-9]
+        if early and drained:
+            world.violate("C31.false-timeout", f"a step returned the StopEvent at t={early[0][1]} and the loop drained before timeout {T}, yet the run "
+                          f"failed with WorkflowTimeoutError", early[0][0], how="stop-returned-before-deadline")
+        elif early:
+            world.probe("stop-returned-but-loop-blocked-until-deadline")
     if err == "WorkflowTimeoutError" and (first_term is None or first_term[2] != "WorkflowTimedOutEvent"):
         world.violate("C31.timeout-outcome", f"WorkflowTimeoutError without a preceding WorkflowTimedOutEvent (first terminal: {first_term})", how="error-without-event")
+    if err == "CancelledError" and cancelled:
+        # nobody hard-cancels in this arm (no handler.cancel(), no body raises it): the graceful cancel_run must end the run
+        # with WorkflowCancelledByUser (or the run ends first with its own result/failure/timeout)
+        world.violate("C31.cancel-outcome", f"cancel_run() was requested and awaiting the handler raised asyncio.CancelledError (first terminal: {first_term})",
+                      how="hard-cancelled")
     if err == "WorkflowCancelledByUser" and (first_term is None or first_term[2] != "WorkflowCancelledEvent"):
         world.violate("C31.cancel-outcome", f"WorkflowCancelledByUser without a preceding WorkflowCancelledEvent (first terminal: {first_term})", how="error-without-event")
     if T is not None and outcome is not None and outcome.get("capped") and first_term is None and world.clock.t >= T:
@@ -105,9 +115,18 @@ def check_a(world, spec, outcome) -> None:
         ex = [t for _, t, kind, f in recs if kind == "exit" and f.get("exit") == "returned-stop" and t < T - 1e-9]
         if ex and first_term is not None and first_term[1] > T + 1e-9:
             world.probe("stop-returned-then-loop-stalled-past-deadline")
+    t_req = None
     for seq, t, kind, f in recs:
-        if kind == "cancel-returned" and not f["done"]:
-            world.violate("C31.cancel-outcome", "cancel_run() returned but the run is still live", seq, how="not-ended")
+        if kind == "cancel-request":
+            t_req = t
+        elif kind == "cancel-returned" and not f["done"]:
+            # cancel_run(timeout=5.0) is a bounded wait: once the 5 s have elapsed (loop blocked by step bodies) it may return
+            # while the run is still unwinding; the outcome rules above still require WorkflowCancelledByUser in the end
+            if t_req is not None and t - t_req >= CANCEL_WAIT:
+                world.probe("cancel_run-wait-elapsed")
+                continue
+            world.violate("C31.cancel-outcome", f"cancel_run() returned {t - (t_req or 0)}s after the call (< its {CANCEL_WAIT}s wait) but the run is still live",
+                          seq, how="not-ended")
     world._nt = bool(world.probes.get("timeout-with-active-steps") or world.probes.get("cancel-with-active-steps"))
 
 
